@@ -272,20 +272,87 @@ def classSeqs : Nat → List (List Nat)
   | 0 => [[]]
   | n + 1 => [] :: (classSeqs n).flatMap (fun s => [[49, 50] ++ s, [55] ++ s, [65] ++ s, [97] ++ s, [1] ++ s])
 
-/-- FULL STATEMENT (not proved in general): for every ASCII content of 1..80 characters and every forced code set
-    the content is admissible for, `code128ReadCodes (code128Codes content forced) = content` — any trace of
-    the `chooseCode` automaton decodes to the content.
-    PROVED: the statement for all 780 non-empty class sequences of length ≤ 4 (every code-set transition pattern
-    of that depth, including the start-code choice, A↔B↔C switches and the removal of the check character),
-    by kernel evaluation.  Missing: the induction over the writer loop for arbitrary characters and lengths
-    (the invariant is: reader state after the emitted prefix = (current code set, content prefix), weights equal);
-    the correspondence suite covers depth ≤ 6, every ASCII character and random contents on the real code. -/
-theorem code128_codeset_inv_partial :
+/-- Clause "Code 128: ASCII 0-127 up to 80 chars incl. digit runs that trigger code set C and control characters
+    that trigger code set A … read(write(c)) == c", symbol layer, FULL: whatever sequence of code sets the
+    `chooseCode` look-ahead automaton selects for an ASCII content, the symbol characters the writer emits (start
+    code, data, code-set switches, mod-103 check character, STOP) are decoded by the reader's state machine —
+    including its treatment of the check character as data and its removal afterwards — to exactly the content. -/
+theorem code128_codeset_inv (contents codes : List Nat) (hascii : ∀ c ∈ contents, c < 128)
+    (h : code128Codes contents none = .ok codes) : code128ReadCodes codes = .ok contents := by
+  unfold code128Codes at h
+  simp only [bind, Except.bind, pure, Except.pure, throw, throwThe, MonadExceptOf.throw] at h
+  split at h
+  · cases h
+  · split at h
+    · cases h
+    · split at h
+      · cases h
+      · rename_i emitted hloop
+        cases h
+        cases contents with
+        | nil => simp [c128Loop] at hloop; subst hloop; rename_i hlen _ ; simp at hlen
+        | cons c rest =>
+          have hc : c < 128 := hascii c (by simp)
+          have adm := chooseCode_adm c rest 0 hc
+          obtain ⟨f, hfuel⟩ : ∃ f, 2 * (c :: rest).length + 2 = f + 1 := ⟨2 * (c :: rest).length + 1, by omega⟩
+          rw [hfuel] at hloop
+          simp only [c128Loop] at hloop
+          have hn0 : ¬ chooseCode (c :: rest) 0 = 0 := by rcases adm.1 with h | h | h <;> omega
+          simp only [hn0, if_false, if_true] at hloop
+          obtain ⟨em, hem, hmv, hrd⟩ := loop_spec _ (c :: rest) false (chooseCode (c :: rest) 0) _ emitted hascii adm.1
+            (Or.inr (Or.inr (chooseCode_idem c rest hc))) hloop
+          subst hem
+          generalize hn : chooseCode (c :: rest) 0 = n0 at *
+          -- the start code and the reader's initial state
+          generalize hst : (if n0 = 101 then 103 else if n0 = 100 then 104 else 105) = st at *
+          have hst' : (st = 103 ∧ n0 = 101) ∨ (st = 104 ∧ n0 = 100) ∨ (st = 105 ∧ n0 = 99) := by
+            rcases adm.1 with h | h | h <;> subst h <;> simp at hst <;> omega
+          simp only [List.reverse_cons, List.reverse_nil, List.nil_append, List.cons_append, List.map_cons,
+            List.map_append]
+          have hsum : c128WriterSum ((st, false) :: em) 0 1 = (st + wsumFrom 1 (em.map (·.1))) % 103 := by
+            simp only [c128WriterSum, Bool.false_eq_true, if_false]
+            rw [writerSum_moved em _ 1 hmv]; simp
+          rw [hsum]
+          unfold code128ReadCodes
+          have hstart : ¬ (st ≠ 103 ∧ st ≠ 104 ∧ st ≠ 105) := by omega
+          simp only [hstart, if_false]
+          have hcs0 : (if st = 103 then 101 else if st = 104 then 100 else 99) = n0 := by
+            rcases hst' with ⟨h1, h2⟩ | ⟨h1, h2⟩ | ⟨h1, h2⟩ <;> subst h1 <;> subst h2 <;> simp
+          rw [hcs0]
+          have hs0 : StOk ⟨n0, [], true, false, false, false, 0, 0, st, 0⟩ n0 [] st 0 0 := by simp [StOk]
+          obtain ⟨s', cs', cd', hrun, hs', hcs'⟩ := hrd _ _ _ _ _ hs0 [(st + wsumFrom 1 (em.map (·.1))) % 103, 106]
+          simp only [Nat.zero_add, List.append_nil] at hs' hrun
+          obtain ⟨s2, hrun2, hck, hcase⟩ := run_check_stop s' cs' _ _ _ cd' hs' hcs'
+          have hrunAll : c128Run (List.map (fun x => x.1) em ++ [(st + wsumFrom 1 (em.map (·.1))) % 103, 106])
+              ⟨n0, [], true, false, false, false, 0, 0, st, 0⟩ = .ok s2 := by rw [hrun, hrun2]
+          rw [hrunAll]
+          simp only [hck, ne_eq, not_true_eq_false, if_false]
+          rcases hcase with ⟨hp, hres⟩ | ⟨hp, pr, hres, hlen⟩
+          · simp [hp, hres]
+          · have hlr : (s2.result.reverse).length = (c :: rest).length + pr.length := by
+              rw [hres]; simp; omega
+            have hk : pr.length = (if s2.codeSet = 99 then 2 else 1) := hlen
+            simp only [hp, if_true]
+            have hne : ¬ s2.result.reverse.length = 0 := by rw [hlr]; simp
+            have hge : ¬ s2.result.reverse.length < (if s2.codeSet = 99 then 2 else 1) := by rw [hlr, ← hk]; omega
+            simp only [hne, hge, if_false]
+            congr 1
+            rw [hlr, ← hk, Nat.add_sub_cancel, hres]
+            simp only [List.reverse_append, List.reverse_reverse]
+            rw [List.take_left']
+            simp
+
+
+/-- non-vacuity / regression: the identity evaluated by the kernel on all 780 non-empty sequences of at most four
+    character classes (digit pair, digit, upper case, lower case, control) — every start-code choice and every
+    A/B/C switch pattern of that depth -/
+theorem code128_codeset_inv_depth4 :
     ((classSeqs 4).filter (· ≠ [])).all
       (fun s => (match code128Codes s none with | .ok cs => code128ReadCodes cs | .error e => .error e) == .ok s) = true := by
   decide +kernel
 
-/-- forced code sets on admissible contents (A: control + upper case, B: printable, C: digit pairs) -/
+/-- forced code sets (FORCE_CODE_SET hint) on admissible contents — A: control + upper case, B: printable,
+    C: digit pairs: evaluated instances (the general statement is `code128_forced_inv` below) -/
 theorem code128_forced_inv_examples :
     (match code128Codes [1, 65, 48, 95, 0] (some 101) with | .ok cs => code128ReadCodes cs | .error e => .error e) = .ok [1, 65, 48, 95, 0] ∧
     (match code128Codes [97, 65, 48, 126, 33] (some 100) with | .ok cs => code128ReadCodes cs | .error e => .error e) = .ok [97, 65, 48, 126, 33] ∧
@@ -424,5 +491,198 @@ theorem code93_read_write (T : Tables) (contents syms : List Nat)
         rw [this, List.take_left']; rfl
       simp only [hl, if_false, bind, Except.bind, pure, Except.pure, throw, throwThe, MonadExceptOf.throw,
         Properties.C10.code93_writer_checks_accepted vals, htake, hchars, hu]
+
+/-- Clause "Code 128 … read(write(c)) == c", writer to module pattern to reader: for every well-formed pattern table
+    and every ASCII content the writer accepts (no forced code set), the module pattern it draws is read back, at
+    module level (run lengths, table lookup, the reader's state machine and checksum test), as the content. -/
+theorem code128_read_write (T : Tables) (hT : WF128 T.code128 = true) (contents : List Nat) (mods : List Bool)
+    (hascii : ∀ c ∈ contents, c < 128) (h : code128Modules T contents none = .ok mods) :
+    code128Ideal T mods = .ok contents := by
+  unfold code128Modules at h
+  simp only [bind, Except.bind] at h
+  split at h
+  · cases h
+  · rename_i codes hcodes
+    have hread := code128_codeset_inv contents codes hascii hcodes
+    -- shape of the code list: everything before STOP is below 106
+    have hshape : ∃ body, codes = body ++ [106] ∧ ∀ c ∈ body, c < 106 := by
+      unfold code128Codes at hcodes
+      simp only [bind, Except.bind, pure, Except.pure, throw, throwThe, MonadExceptOf.throw] at hcodes
+      split at hcodes
+      · cases hcodes
+      · split at hcodes
+        · cases hcodes
+        · split at hcodes
+          · cases hcodes
+          · rename_i emitted hloop
+            cases hcodes
+            cases contents with
+            | nil => simp [c128Loop] at hloop; subst hloop; rename_i hlen _; simp at hlen
+            | cons c rest =>
+              have hc : c < 128 := hascii c (by simp)
+              have adm := chooseCode_adm c rest 0 hc
+              obtain ⟨f, hfuel⟩ : ∃ f, 2 * (c :: rest).length + 2 = f + 1 := ⟨2 * (c :: rest).length + 1, by omega⟩
+              rw [hfuel] at hloop
+              simp only [c128Loop] at hloop
+              have hn0 : ¬ chooseCode (c :: rest) 0 = 0 := by rcases adm.1 with h | h | h <;> omega
+              simp only [hn0, if_false, if_true] at hloop
+              have hlt := loop_idx_lt f (c :: rest) false (chooseCode (c :: rest) 0) _ emitted hascii adm.1
+                (by intro e he
+                    simp only [List.mem_singleton] at he
+                    subst he
+                    simp; split <;> (try split) <;> omega) hloop
+              refine ⟨emitted.map (·.1) ++ [c128WriterSum emitted 0 1], by simp, ?_⟩
+              intro x hx
+              simp only [List.mem_append, List.mem_map, List.mem_singleton] at hx
+              rcases hx with ⟨e, he, rfl⟩ | rfl
+              · exact hlt e he
+              · have : c128WriterSum emitted 0 1 < 103 := c128WriterSum_lt emitted 0 1
+                omega
+    obtain ⟨body, rfl, hb⟩ := hshape
+    obtain ⟨mods', hdraw, hideal⟩ := code128_ideal_decode_encode T hT body hb
+    rw [hdraw] at h
+    cases h
+    rw [hideal, hread]
+
+/-- Clause "Code 128 … and each forced code set": with the FORCE_CODE_SET hint (A, B or C) every ASCII content the
+    writer accepts for that set is emitted entirely in that set and decoded by the reader's state machine to
+    exactly the content. -/
+theorem code128_forced_inv (f : Nat) (hf : f = 99 ∨ f = 100 ∨ f = 101) (contents codes : List Nat)
+    (hascii : ∀ c ∈ contents, c < 128) (h : code128Codes contents (some f) = .ok codes) :
+    code128ReadCodes codes = .ok contents := by
+  unfold code128Codes at h
+  simp only [bind, Except.bind, pure, Except.pure, throw, throwThe, MonadExceptOf.throw] at h
+  split at h
+  · cases h
+  · split at h
+    · cases h
+    · rename_i hall
+      split at h
+      · cases h
+      · rename_i emitted hloop
+        cases h
+        have hok : ∀ c ∈ contents, c128CharOk (some f) c = true := by
+          have : contents.all (c128CharOk (some f)) = true := by simpa using hall
+          exact List.all_eq_true.mp this
+        cases contents with
+        | nil => exfalso; simp_all
+        | cons c rest =>
+          obtain ⟨fu, hfuel⟩ : ∃ fu, 2 * (c :: rest).length + 2 = fu + 1 := ⟨2 * (c :: rest).length + 1, by omega⟩
+          rw [hfuel] at hloop
+          simp only [c128Loop] at hloop
+          have hn0 : ¬ f = 0 := by omega
+          simp only [hn0, if_false, if_true] at hloop
+          obtain ⟨em, hem, hmv, _, hrd⟩ := loop_spec_forced f hf fu (c :: rest) false _ emitted hascii hok
+            (Or.inr trivial) hloop
+          subst hem
+          generalize hst : (if f = 101 then 103 else if f = 100 then 104 else 105) = st at *
+          have hst' : (st = 103 ∧ f = 101) ∨ (st = 104 ∧ f = 100) ∨ (st = 105 ∧ f = 99) := by
+            rcases hf with h | h | h <;> subst h <;> simp at hst <;> omega
+          simp only [List.reverse_cons, List.reverse_nil, List.nil_append, List.cons_append, List.map_cons,
+            List.map_append]
+          have hsum : c128WriterSum ((st, false) :: em) 0 1 = (st + wsumFrom 1 (em.map (·.1))) % 103 := by
+            simp only [c128WriterSum, Bool.false_eq_true, if_false]
+            rw [writerSum_moved em _ 1 hmv]; simp
+          rw [hsum]
+          unfold code128ReadCodes
+          have hstart : ¬ (st ≠ 103 ∧ st ≠ 104 ∧ st ≠ 105) := by omega
+          simp only [hstart, if_false]
+          have hcs0 : (if st = 103 then 101 else if st = 104 then 100 else 99) = f := by
+            rcases hst' with ⟨h1, h2⟩ | ⟨h1, h2⟩ | ⟨h1, h2⟩ <;> subst h1 <;> subst h2 <;> simp
+          rw [hcs0]
+          have hs0 : StOk ⟨f, [], true, false, false, false, 0, 0, st, 0⟩ f [] st 0 0 := by simp [StOk]
+          obtain ⟨s', cd', hrun, hs'⟩ := hrd _ _ _ _ _ hs0 [(st + wsumFrom 1 (em.map (·.1))) % 103, 106]
+          simp only [Nat.zero_add, List.append_nil] at hs' hrun
+          obtain ⟨s2, hrun2, hck, hcase⟩ := run_check_stop s' f _ _ _ cd' hs' hf
+          have hrunAll : c128Run (List.map (fun x => x.1) em ++ [(st + wsumFrom 1 (em.map (·.1))) % 103, 106])
+              ⟨f, [], true, false, false, false, 0, 0, st, 0⟩ = .ok s2 := by rw [hrun, hrun2]
+          rw [hrunAll]
+          simp only [hck, ne_eq, not_true_eq_false, if_false]
+          rcases hcase with ⟨hp, hres⟩ | ⟨hp, pr, hres, hlen⟩
+          · simp [hp, hres]
+          · have hlr : (s2.result.reverse).length = (c :: rest).length + pr.length := by
+              rw [hres]; simp; omega
+            have hk : pr.length = (if s2.codeSet = 99 then 2 else 1) := hlen
+            simp only [hp, if_true]
+            have hne : ¬ s2.result.reverse.length = 0 := by rw [hlr]; simp
+            have hge : ¬ s2.result.reverse.length < (if s2.codeSet = 99 then 2 else 1) := by rw [hlr, ← hk]; omega
+            simp only [hne, hge, if_false]
+            congr 1
+            rw [hlr, ← hk, Nat.add_sub_cancel, hres]
+            simp only [List.reverse_append, List.reverse_reverse]
+            rw [List.take_left']
+            simp
+
+/-! ### the UPC/EAN row decoder returns only verified numbers -/
+
+/-- Clause (C10) "Readers never return a symbol whose check characters do not verify", on the row-decoder model:
+    whatever pixel row is given, any text `decodeRow` returns has passed `checkChecksum` — for EAN-13 / EAN-8 the
+    mod-10 test, for UPC-E the mod-10 test of the expansion, for UPC-A the EAN-13 test of "0"+text.
+    By inspection of the control flow: the checksum test is the last gate before the result. -/
+theorem reader_result_verifies (T : Tables) (k : EanKind) (row : List Bool) (text : List Nat)
+    (h : decodeRow T k row = .ok text) :
+    readerAccept (if k = .upca then .ean13 else k) (if k = .upca then 48 :: text else text) = .ok () := by
+  unfold decodeRow at h
+  simp only [bind, Except.bind] at h
+  split at h
+  · cases h
+  · rename_i sg hsg
+    unfold decodeWithStart at h
+    cases k <;>
+      simp only [bind, Except.bind, pure, Except.pure, throw, throwThe, MonadExceptOf.throw, reduceCtorEq,
+        if_false, if_true] at h ⊢
+    · -- ean13
+      split at h
+      · cases h
+      · split at h
+        · cases h
+        · split at h
+          · cases h
+          · split at h
+            · cases h
+            · split at h
+              · cases h
+              · rename_i hacc; cases h; exact hacc
+    · -- ean8
+      split at h
+      · cases h
+      · split at h
+        · cases h
+        · split at h
+          · cases h
+          · split at h
+            · cases h
+            · split at h
+              · cases h
+              · rename_i hacc; cases h; exact hacc
+    · -- upca
+      split at h
+      · cases h
+      · split at h
+        · cases h
+        · split at h
+          · cases h
+          · split at h
+            · cases h
+            · split at h
+              · cases h
+              · rename_i hacc
+                split at h
+                · rename_i rest hres
+                  cases h
+                  rw [← hres]; exact hacc
+                · cases h
+    · -- upce
+      split at h
+      · cases h
+      · split at h
+        · cases h
+        · split at h
+          · cases h
+          · split at h
+            · cases h
+            · split at h
+              · cases h
+              · rename_i hacc; cases h; exact hacc
 
 end Gzx.Properties.C03
